@@ -940,6 +940,11 @@ let suite_seq file =
       | "LST" :: rest -> if !alive then handle_lst rest
       | "HFAIL" :: i :: rest -> oracle "C07" i (String.concat " " rest)
       | "CANARY" :: i :: rest -> oracle "C18" i ("guard region of a metadata buffer modified: " ^ String.concat " " rest)
+      | "LAYOUT" :: i :: rest ->
+          (* the crate's metadata_size disagrees with the layout its own accessors use: buffers of exactly that size are
+             too small (or mis-sized) for this frame count *)
+          let t = "metadata size computation: " ^ String.concat " " rest in
+          oracle "C18" i t; oracle "C06" i t; alive := false
       | "OP" :: i :: rest when !alive ->
           incr evals;
           let op, res = strip_result rest in
